@@ -1,5 +1,10 @@
 """C24 implementation side.
 
+The relevance-off run must converge (its iterative linear solvers raise on non-convergence; otherwise the case is
+vacuous).  The relevance-on run uses OpenMDAO's default behaviour of iterative linear solvers (a message, no
+exception), so that a solve that goes wrong only because of the pruning shows up as different totals instead of
+being discarded as "not converged".
+
 Oracle (the property): totals (fwd and rev) and converged outputs of every generated model computed with
 relevance enabled (this process) equal those computed with OPENMDAO_NO_RELEVANCE=1 (a fresh subprocess).
 Canonical result for the Coq comparison: the relevance sets of the REAL Relevance object (systems downstream of
@@ -110,12 +115,12 @@ def run_all(cases, with_sets):
     outs = []
     for c in cases:
         try:
-            o = observe(c['spec'], c['cfg'], c.get('history', ()))
+            o = observe(c['spec'], dict(c['cfg'], err=not with_sets), c.get('history', ()))
             r = {'Jfwd': o['Jfwd'], 'Jrev': o['Jrev'], 'state': o['state'], 'Hfwd': o['Hfwd'], 'Hrev': o['Hrev']}
             if with_sets:
                 r['D'], r['A'] = real_sets(o['prob'], c['spec'])
-        except AnalysisError:
-            r = {'vacuous': True}
+        except AnalysisError as e:
+            r = {'vacuous': True, 'why': str(e)[:150]}
         except Exception as e:
             r = {'error': traceback.format_exc()[-1500:], 'etype': type(e).__name__ + ':' + str(e)[:60]}
         outs.append(r)
